@@ -1,16 +1,29 @@
 '''C06 Index set algebra and label alignment of binary operators.'''
 from sfa.report import Ctx
+from sfa.rules import alignrules
 from sfa.rules import table
 
 LEVEL_TEXT = (
-    'Static decision of structural clauses of C06: (b) the operator-dunder table of ContainerOperand (29 methods: each passes the like-named operator function, reflected forms swap operands and are named r<op>) and the operator names special-cased by apply_binary_operator are names that table produces, with operands in source order. Not decided: NumPy set-operation results, NaN labels, the values of op(a, b).')
+    'Static decision of structural clauses of C06. (a) Alignment discipline, decided per path on a path-sensitive symbolic store of '
+    'Series/Frame._ufunc_binary_operator: wherever `other` is a labelled container not known to have equal labels, both operands are '
+    'reindexed to one and the same union (self\'s labels united with other\'s) on each aligned axis, that union labels the result on that '
+    'axis, the untouched axis keeps self\'s labels, and the operator gets self\'s data as left and other\'s as right operand. '
+    '(b) The operator-dunder table of ContainerOperand (29 methods: each passes the like-named operator function, reflected forms swap '
+    'operands and are named r<op>) and the operator names special-cased by apply_binary_operator are names that table produces. '
+    '(c) Every early return of _ufunc_set_1d/_2d that hands back an operand or an empty array does so only under the conditions set '
+    'algebra allows and, for operands, only under assume_unique; the 1-D and 2-D functions take the same shortcuts; assume_unique=True '
+    'reaches the set functions only with operands that are index values (or a computed uniqueness flag / pass-through). '
+    'Not decided: NumPy set-operation results, NaN labels, the values of op(a, b), reindex itself.')
 
 CLAIM = dict(
     text=LEVEL_TEXT,
-    technique='declarative operator-table extraction and comparison (every opcode has the right handler)',
+    technique='path-sensitive symbolic-store dataflow (per-path operand/label provenance) + branch-fact dominance on shortcut returns + operator-table comparison',
     design_ref='DESIGN.md section 2.G and section 3 C06',
 )
 
 
 def run(ctx: Ctx) -> None:
     table.t1_operators(ctx)
+    alignrules.binary_alignment(ctx)
+    alignrules.set_shortcuts(ctx)
+    alignrules.assume_unique_provenance(ctx)
